@@ -5,6 +5,9 @@
 \* shape, 22 DeleteRange bound pairs, both encodings, Close/Kill/Open/ConvertToProto in every state.
 \* EdgePrint prints every generated transition: checks/c09.py turns them into an
 \* edge-covering tour that is executed on the real LevelDBStore.
+\* Above = {}: no index rank sorts after the "stablestore-" keys in this graph; checks/c09.py
+\* derives the variants Above = {1,3,5}, {5}, {3,5} of the tiny config at run time (thorough tier)
+\* and executes every tour/behaviour under concretisations below, above and across that boundary.
 SPECIFICATION Spec
 CONSTANTS
     Idx <- TinyIdx
@@ -17,6 +20,7 @@ CONSTANTS
     ProtoChoices <- TinyProtos
     RangeChoices <- TinyRanges
     EncChoices <- Encs
+    Above = {}
     KeepHist = FALSE
     MaxOps = 0
 VIEW SV
